@@ -35,6 +35,7 @@ def main():
     run = vlib.Run('C04')
     run.coq_gate()
     cp.proto_component_check(run, {'C04'}, run.n(120, 3000), run.n(200, 6000))
+    cp.publish_fault_cases(run, run.n(12, 200))
     rng = run.rng
     for it in range(run.n(14, 300)):
         topo = rng.choice(['sole', 'relay', 'several'])
